@@ -875,13 +875,8 @@ fn exec_res(line: &str, t: &[&str], rec: &mut Recorder) {
                 let said_by_flagged = Truth::responses(&case).iter().any(|(g, _, resp)| {
                     case.groups[*g].ips.iter().any(|ip| flagged.contains(ip)) && resp.all().any(|x| canon_rec(&case, x) == canon)
                 });
-                let class = if o.class != "ok" {
-                    CLASS_NEG
-                } else if said_by_flagged {
-                    CLASS_NSADDR
-                } else {
-                    ""
-                };
+                // (error payloads are filtered since fix 030930c: no known class for them any more)
+                let class = if said_by_flagged { CLASS_NSADDR } else { "" };
                 rec.fail(
                     idx,
                     format!("query {k}: returned record {sec}:{canon} whose owner is outside every zone delegated to a server that said it ({})", o.class),
@@ -890,8 +885,8 @@ fn exec_res(line: &str, t: &[&str], rec: &mut Recorder) {
             }
             if let Some(ip) = r.data.ip_addr() {
                 if denied(&case.deny_ans, &case.allow_ans, &ip) {
-                    // negative outcomes skip the pool's answer filter as well (same class as the bailiwick filter)
-                    let class = if o.class != "ok" { CLASS_NEG } else { "" };
+                    // negative outcomes skip the pool's answer filter (NameServerPool::send filters Ok responses only)
+                    let class = if o.class != "ok" { CLASS_NEG_ANS } else { "" };
                     rec.fail(idx, format!("query {k}: returned address {} which the answer filter denies ({})", ip_tok(&ip), o.class), class);
                 }
             }
@@ -953,7 +948,7 @@ fn exec_res(line: &str, t: &[&str], rec: &mut Recorder) {
     }
 }
 
-const CLASS_NEG: &str = "C19.NegativeResponseUnfiltered";
+const CLASS_NEG_ANS: &str = "C19.NegativeResponseAnswerFilterSkipped";
 const CLASS_NSADDR: &str = "C19.GluelessNsAddressOwnerUnchecked";
 
 /// Narrow class of the "contacted an address nobody legitimately made a name server" failure: the internet
@@ -1633,6 +1628,20 @@ pub mod gen {
             let q1 = w.intern("www.zero.com.");
             let roots = w.group_ips[0].clone();
             out.push(("ttl-zero", w.case(roots, vec![(q1, 1), (q1, 1)], 24, 24)));
+        }
+        // 13b. negative answer carrying an in-bailiwick address the answer filter denies
+        {
+            let mut w = base(false);
+            let ga = w.std_group(1);
+            w.zone("attacker.com.", ga, &["ns.attacker.com."], true);
+            w.finish();
+            let inj = w.a("x.attacker.com.", evil);
+            let q2 = w.intern("nothing.attacker.com.");
+            w.extras.push(Extra { group: ga, qname: Some(q2), qtype: None, section: 1, rec: inj });
+            let roots = w.group_ips[0].clone();
+            let mut c = w.case(roots, vec![(q2, 16), (q2, 16)], 24, 24);
+            c.deny_ans = vec![net32(evil)];
+            out.push(("negative-answer-with-denied-address", c));
         }
         // 13. negative answer carrying out-of-bailiwick authority data
         {
